@@ -15,7 +15,8 @@ done
 worker() {
   i=$1; source /tmp/vf/rp$i/env.sh; cd /tmp/vf/rp$i/verif
   awk -v k=$K -v i=$i 'NR % k == i % k' $LIST | while read kind prop patch name; do
-    out=$(bash tools/variantcheck.sh /verif/$patch $prop 2>&1)
+    out=$(VC_MAX=60 bash tools/variantcheck.sh /verif/$patch $prop 2>&1)
+    mkdir -p /tmp/vf/replay_out; echo "$out" > /tmp/vf/replay_out/$kind-$name.txt
     if echo "$out" | grep -q "patch does not apply"; then echo "NOAPPLY $kind $name";
     elif echo "$out" | grep -q "INFRA"; then echo "INFRA   $kind $name";
     elif echo "$out" | grep -q "^VIOLATION"; then [ $kind = benign ] && echo "FALSE-ALARM $name: $(echo "$out" | grep 'violation:' | cut -c1-160 | head -3 | tr '\n' ';')" || echo "OK      $kind $name";
